@@ -28,7 +28,7 @@ var chunkModes = []uint32{1, 2, 3, 5, 7, 1024, 1025, 1026}
 // buildObs builds the batch in memory and returns the observed and specified contents (wire form).
 func buildObs(c *ctx, b zh.Batch, mode uint32) (sb *zap.SegmentBase, obs, spec sx.V, err error) {
 	spec, err = zh.SpecOf(c.M, b)
-	must(err)
+	mustH(err)
 	sb, _, err = zh.Build(b, mode)
 	if err != nil {
 		return nil, sx.V{}, spec, err
@@ -171,6 +171,14 @@ func checkC01(c *ctx) {
 			c.Violation("C01 "+bad+"\nbatch: "+b.Sx().String(), false)
 			return
 		}
+		// conjunction-style reading: recycled objects, half-read iterators, lookups that miss
+		if cont, err := zh.Dump(sb); err == nil {
+			if bad := zh.InterleavedLookups(sb, cont); bad != "" {
+				c.Violation("C01 "+bad+"\nchunkMode="+fmt.Sprint(mode)+"\nbatch: "+clip(b.Sx().String()), false)
+				return
+			}
+			c.Count("interleaved_lookup_rounds")
+		}
 	}
 	// boundary batches: exact cardinalities around multiples of 1024
 	type bb struct {
@@ -241,7 +249,7 @@ func absentQueries(sb *zap.SegmentBase) string {
 func init() { register("C02", checkC02) }
 
 func checkC02(c *ctx) {
-	c.Rule = "the C01 batch generator with stored fields (repeated names, empty values, occasional >64KB values, array positions up to 40 entries, _id lengths at the varint boundaries 127..5000 bytes); observed: Count, Fields (as a set), every VisitStoredFields with visitors stopping after every prefix length, DocID, DocNumbers on id lists with present / absent / duplicate / greater-than-every-key ids, visits at and beyond Count; expected = extracted spec_of_batch (+ its stored-visit prefix function); non-trivial = >= 2 docs with >= 1 stored non-_id value"
+	c.Rule = "the C01 batch generator with stored fields (repeated names, empty values, occasional >64KB values, array positions up to 40 entries, _id lengths at the varint boundaries 127..5000 bytes; two batches whose per-document meta / data lengths sweep 16372..16387 across the varint boundary 16384); observed: Count, Fields (as a set), every VisitStoredFields with visitors stopping after every prefix length, DocID (also: the returned bytes must still read the id after all later calls), DocNumbers on id lists with present / absent / duplicate / greater-than-every-key ids, visits at and beyond Count; expected = extracted spec_of_batch (+ its stored-visit prefix function); non-trivial = >= 2 docs with >= 1 stored non-_id value"
 	c.Assumptions = append(c.Assumptions, "input domain W1 (exactly one stored _id per document)")
 	n := c.n(260, 5000)
 	parts := []int{pNDocs, pFields, pStored}
@@ -294,6 +302,13 @@ func checkC02(c *ctx) {
 }
 
 // storedAPI exercises DocID, DocNumbers, early-stopping visitors and out-of-range documents.
+func clipb(b []byte) []byte {
+	if len(b) > 40 {
+		return append(append([]byte(nil), b[:37]...), '.', '.', '.')
+	}
+	return b
+}
+
 func storedAPI(c *ctx, sb segment.Segment, b zh.Batch, spec sx.V) string {
 	if sb == nil {
 		return "build failed"
@@ -307,6 +322,23 @@ func storedAPI(c *ctx, sb segment.Segment, b zh.Batch, spec sx.V) string {
 		}()
 		n := uint64(len(b))
 		ids := map[string][]uint32{}
+		// the ids as returned (not copied): they must still be the ids after every later call
+		kept := make([][]byte, n)
+		for d := uint64(0); d < n; d++ {
+			if kept[d], err = sb.DocID(d); err != nil {
+				return err
+			}
+		}
+		defer func() {
+			if bad == "" && err == nil {
+				for d := uint64(0); d < n; d++ {
+					if string(kept[d]) != b[d].ID() {
+						bad = fmt.Sprintf("the bytes DocID(%d) returned read %q after later DocID / VisitStoredFields calls, the id is %q", d, clipb(kept[d]), clipb([]byte(b[d].ID())))
+						return
+					}
+				}
+			}
+		}()
 		for d := uint64(0); d < n; d++ {
 			id, err := sb.DocID(d)
 			if err != nil {
